@@ -18,12 +18,22 @@ def feature(name, ftype, start, end, attrs, seqid="chr1", strand="+", source="sr
     return F
 
 
+def scenario_interp(ctx):
+    """Attribute mappings are plain dicts in the scenarios: Feature builds a dict where it would build an Attributes
+    wrapper, and reading a stored row yields the decoded JSON object itself (Attributes' own behaviour is C17's subject)."""
+    from ..absint import TypeVal
+    from ..scenario import json_loads
+    it = Interp(ctx, overrides={("feature", "dict_class"): TypeVal("dict")})
+    it.summaries["helpers._unjsonify"] = lambda i, pos, kw, node: json_loads(i, pos[:1], {}, node)
+    return it
+
+
 class Import:
     """One importer object over a fresh (or given) model database."""
 
     def __init__(self, ctx, cls, db=None, **attrs):
         self.ctx, self.cls = ctx, cls
-        self.it = Interp(ctx)
+        self.it = scenario_interp(ctx)
         self.it.MAX_TRACES = 64
         self.conn = install(self.it, db)
         if db is None:
@@ -90,3 +100,92 @@ def run_gff(ctx, lines, **attrs):
     im.call("_populate_from_lines", lines=list(lines))
     im.call("_update_relations")
     return im
+
+
+# ------------------------------------------------------------------------------------------------ whole pipelines
+from ..absint import HostIter  # noqa: E402
+
+
+class IterVal(HostIter):
+    """The DataIterator the importer is given: the parsed lines in file order, plus the iterator's dialect / directives."""
+
+    def __init__(self, lines, dialect=None, directives=None):
+        HostIter.__init__(self, iter(list(lines)), "DataIterator")
+        self.fields = {"dialect": dialect if dialect is not None else {"fmt": "gff3"}, "warnings": [], "directives": directives if directives is not None else [],
+                       "data": "file.gff", "current_item": None, "current_item_number": None}
+
+    def __deepcopy__(self, memo):
+        return self
+
+    def ai_getattr(self, interp, attr):
+        if attr in self.fields:
+            return self.fields[attr]
+        return NotImplemented
+
+    def ai_setattr(self, interp, attr, v):
+        self.fields[attr] = v
+
+    def ai_call(self, interp, attr, pos, kw, node):
+        if attr in ("__iter__",):
+            return self
+        raise Unsupported("iterator method %s" % attr)
+
+
+def run_create(ctx, cls, lines, directives=None, dialect=None, **attrs):
+    """_DBCreator.create() on an empty model database."""
+    from .. import minidb
+    db = minidb.MiniDB()
+    im = Import(ctx, cls, db=db, **attrs)
+    ds = directives if directives is not None else []
+    im.me.attrs["iterator"] = IterVal(lines, dialect=dialect or im.me.attrs["dialect"], directives=ds)
+    im.me.attrs["directives"] = ds
+    t = im.call("create")
+    return im, t
+
+
+def feature_db(ctx, db, fmt="gff3", counters=None, it=None, **attrs):
+    """A FeatureDB object over the model database `db` (as FeatureDB.__init__ leaves it), and the evaluator to run its methods."""
+    from ..absint import TypeVal
+    it = it or scenario_interp(ctx)
+    it.MAX_TRACES = 64
+    conn = install(it, db)
+    me = Opaque("self", "FeatureDB")
+    cnt = collections.defaultdict(int)
+    cnt.update(counters or {})
+    base = dict(conn=conn, dbfn="db.sqlite", dialect={"fmt": fmt}, _autoincrements=cnt, keep_order=False, sort_attribute_values=False,
+                default_encoding="utf-8", directives=[], version="0.13", pragmas={}, _analyzed_=True)
+    base.update(attrs)
+    me.attrs.update(base)
+    it.construct_real |= {"create._GFFDBCreator", "create._GTFDBCreator", "feature.Feature"}
+
+    def s_dataiterator(i, pos, kw, node):
+        data = pos[0] if pos else kw.get("data")
+        if isinstance(data, IterVal):
+            return data
+        if isinstance(data, Opaque) and data.kind == "FeatureDB":
+            raise Unsupported("update from another database")
+        items = list(data)
+        iv = IterVal(items, dialect=kw.get("dialect") or {"fmt": fmt})
+        n = kw.get("checklines", 10)
+        iv.fields["_peek"] = items[: (n + 1 if isinstance(n, int) else 11)]
+        return iv
+    it.summaries["iterators.DataIterator"] = s_dataiterator
+    return it, me, conn
+
+
+def call_method(ctx, it, me, qual, **args):
+    f = require_func(ctx, qual)
+    try:
+        traces = it.run(f, args, self_obj=me, copy_args=False)
+    except Unsupported as e:
+        ctx.require(False, "%s outside the analysable subset: %s" % (qual, e))
+    ctx.require(len(traces) == 1, "%s forks on a concrete scenario (%d paths): %s" % (qual, len(traces), [repr(d[0])[:80] for t in traces[:2] for d in t.decisions[:3]]))
+    return traces[0]
+
+
+def returned(ctx, t, what, func=None, rule="R1"):
+    """Obligation: the evaluated call returned (a raise on a well-formed scenario is a finding, reported with its exception)."""
+    ok = t.result[0] == "return"
+    if not ok:
+        ctx.ob(rule, False, "%s completes on a well-formed scenario" % what, func=func, sig="%s raises %s: %s" % (what, t.result[1], str(t.result[2])[:80] if len(t.result) > 2 else ""))
+    return ok
